@@ -471,6 +471,11 @@ struct Runner {
             x = "<stream:error><policy-violation xmlns='urn:ietf:params:xml:ns:xmpp-streams'/></stream:error>";
         } else if (k == "Whitespace") {
             x = " ";
+        } else if (k == "Partial") {
+            // the beginning of an element / of a multi-byte character; nothing follows (the behaviour
+            // continues with a cut or a local disconnect)
+            x = s["what"].toString() == "utf8" ? QByteArray("<message xmlns='jabber:client' from='example.org'><body>caf\xC3")
+                                               : QByteArray("<message xmlns='jabber:client' from='example.org'><bo");
         } else {
             fprintf(stderr, "stream: unknown step %s\n", qPrintable(k));
             exit(2);
